@@ -12,10 +12,12 @@
   * `i32` fields are `Int` (unbounded).  Every operation on them in this file is `+`, `-`, negation or
     assignment, i.e. a ring homomorphism to Z/2^32, so the release build's wrapping result is
     `wrap32` of the model's result (the driver prints `wrap32`); `attach_chain` is an `i16` and is
-    wrapped (`wrap16`) exactly where Rust casts `as i16` or negates an `i16`;
-  * the two recursive functions have NO nesting limit in the crate (defect D13).  They terminate because
-    each frame zeroes one non-zero `attach_chain` before recursing; the model recursion is structural on
-    a `fuel` argument, the result carries the recursion depth, and `Lemmas/Gpos.lean` proves that
+    wrapped (`wrap16`) exactly where Rust casts `as i16` or negates an `i16` — since the i16 guard in
+    MarkArray / CursivePos (D13b fixed) those casts are exact (`Lemmas: ChainOK`);
+  * `propagate_attachment_offsets` carries HarfBuzz's `nesting_level` budget (D13 fixed): the model recursion
+    is structural on it.  `reverse_cursive_minor_offset` still has no limit (as in HarfBuzz); it terminates
+    because each frame zeroes one non-zero `attach_chain` before recursing; its model recursion is structural
+    on a `fuel` argument, the result carries the recursion depth, and `Lemmas/Gpos.lean` proves that
     `fuel = (number of non-zero chains) + 1` is always enough (so `.fuel` is never observed).
 -/
 namespace RbModel.Gpos
@@ -111,40 +113,45 @@ def attachStep (d : Dir) (kind : Nat) (p : Array Pos) (i j : Nat) : M (Array Pos
       else .ok (put p i { qi with xo := qi.xo + qj.xo })
   else .ok p
 
-/-- src: ot_layout_gpos_table.rs::propagate_attachment_offsets
-    Result: new positions and the number of nested frames this call used (1 = no recursion). -/
-def propagate (fuel : Nat) (p : Array Pos) (len i : Nat) (d : Dir) : M (Array Pos × Nat) :=
-  match fuel with
-  | 0 => .error .fuel
-  | fuel + 1 =>
-    match get p i with
-    | .error e => .error e
-    | .ok pi =>
-      if pi.chain = 0 then .ok (p, 1)
-      else
-        let p1 := put p i { pi with chain := 0 }
-        match target i pi.chain len with
-        | none => .ok (p1, 1)
-        | some j =>
-          match propagate fuel p1 len j d with
+/-- src: ot_layout.rs::MAX_NESTING_LEVEL (tied to the crate's value by `C07_consts`) -/
+def MAX_NESTING_LEVEL : Nat := 64
+
+/-- src: ot_layout_gpos_table.rs::propagate_attachment_offsets (with HarfBuzz's `nesting_level` budget).
+    The recursion is structural on that budget — Lean's termination check is the code's own argument.
+    Result: new positions and the number of nested frames this call used (1 = no recursion).
+    When the budget is exhausted the link of `i` has already been zeroed and `i` is left un-accumulated. -/
+def propagate (p : Array Pos) (len i : Nat) (d : Dir) (nl : Nat) : M (Array Pos × Nat) :=
+  match get p i with
+  | .error e => .error e
+  | .ok pi =>
+    if pi.chain = 0 then .ok (p, 1)
+    else
+      let p1 := put p i { pi with chain := 0 }
+      match target i pi.chain len with
+      | none => .ok (p1, 1)
+      | some j =>
+        match nl with
+        | 0 => .ok (p1, 1)                       -- `if nesting_level == 0 { return; }`
+        | nl' + 1 =>
+          match propagate p1 len j d nl' with
           | .error e => .error e
           | .ok (p2, dep) =>
             match attachStep d pi.atype p2 i j with
             | .error e => .error e
             | .ok q => .ok (q, dep + 1)
 
-/-- number of entries with a non-zero `attach_chain` — the termination measure of both recursions -/
+/-- number of entries with a non-zero `attach_chain` — the termination measure of `reverse_cursive_minor_offset` -/
 def nz (p : Array Pos) : Nat := p.countP (fun q => q.chain != 0)
 
-/-- the fuel the model hands to every top-level call (always enough, see `Lemmas/Gpos.lean`) -/
+/-- the fuel the model hands to every top-level `reverse_cursive_minor_offset` call (always enough) -/
 def fuelFor (p : Array Pos) : Nat := p.size + 1
 
-/-- `for i in 0..len { propagate_attachment_offsets(pos, len, i, direction) }`; second component: the
-    deepest recursion seen. -/
+/-- `for i in 0..len { propagate_attachment_offsets(pos, len, i, direction, MAX_NESTING_LEVEL) }`;
+    second component: the deepest recursion seen. -/
 def finishLoop (p : Array Pos) (len : Nat) (d : Dir) : Nat → Nat → Nat → M (Array Pos × Nat)
   | _, 0, dmax => .ok (p, dmax)
   | i, n + 1, dmax => do
-    let (p, dep) ← propagate (fuelFor p) p len i d
+    let (p, dep) ← propagate p len i d MAX_NESTING_LEVEL
     finishLoop p len d (i + 1) n (max dmax dep)
 
 /-- src: ot_layout_gpos_table.rs::GPOS::position_finish_offsets
@@ -193,12 +200,20 @@ def pairApply (v1 v2 : ValueRecord) (d : Dir) (p : Array Pos) (i j : Nat) : M (A
   let (p, f2) ← if !v2.isEmpty then valueApply v2 d p j else .ok (p, false)
   .ok (p, f1, f2)
 
+/-- `i16::MAX`: the largest distance an `attach_chain` link may span -/
+def CHAIN_MAX : Nat := 32767
+
 /-- src: GPOS/mark_array.rs::MarkArrayExt::apply (position part; `idx` = buffer.idx, the mark;
-    `glyphPos` = the base / ligature / mark2 it attaches to) -/
-def markArrayApply (p : Array Pos) (idx glyphPos : Nat) (markX markY baseX baseY : Int) : M (Array Pos) := do
-  let q ← get p idx
-  .ok (put p idx { q with xo := baseX - markX, yo := baseY - markY, atype := ATTACH_MARK,
-                          chain := wrap16 ((glyphPos : Int) - (idx : Int)) })
+    `glyphPos` = the base / ligature / mark2 it attaches to).  `none` = `return None`: a glyph more than
+    `i16::MAX` positions away is not attached (the `as i16` cast below is then exact). -/
+def markArrayApply (p : Array Pos) (idx glyphPos : Nat) (markX markY baseX baseY : Int) : M (Option (Array Pos)) :=
+  if ((glyphPos : Int) - (idx : Int)).natAbs > CHAIN_MAX then .ok none
+  else
+    match get p idx with
+    | .error e => .error e
+    | .ok q =>
+      .ok (some (put p idx { q with xo := baseX - markX, yo := baseY - markY, atype := ATTACH_MARK,
+                                    chain := wrap16 ((glyphPos : Int) - (idx : Int)) }))
 
 /-! ### cursive attachment -/
 
@@ -297,12 +312,19 @@ def cursiveCross (p : Array Pos) (i j : Nat) (d : Dir) (rtlFlag : Bool)
   if rtlFlag then cursiveAttach p i j d (entryX - exitX) (entryY - exitY)
   else cursiveAttach p j i d (-(entryX - exitX)) (-(entryY - exitY))
 
-/-- src: GPOS/cursive_pos.rs::CursiveAdjustment::apply — everything after the anchors are known. -/
+/-- src: GPOS/cursive_pos.rs::CursiveAdjustment::apply — everything after `iter.prev` found `i`.
+    `none` = `return None`: glyphs more than `i16::MAX` positions apart are not joined
+    (`ctx.buffer.idx - i` is a usize subtraction: it wraps to a huge value when `i > j`). -/
 def cursiveApply (p : Array Pos) (i j : Nat) (d : Dir) (rtlFlag : Bool)
-    (entryX entryY exitX exitY : Int) : M (Array Pos × Nat) :=
-  match cursiveMain p i j d entryX entryY exitX exitY with
-  | .error e => .error e
-  | .ok p1 => cursiveCross p1 i j d rtlFlag entryX entryY exitX exitY
+    (entryX entryY exitX exitY : Int) : M (Option (Array Pos × Nat)) :=
+  if i > j ∨ j - i > CHAIN_MAX then .ok none
+  else
+    match cursiveMain p i j d entryX entryY exitX exitY with
+    | .error e => .error e
+    | .ok p1 =>
+      match cursiveCross p1 i j d rtlFlag entryX entryY exitX exitY with
+      | .error e => .error e
+      | .ok r => .ok (some r)
 
 /-! ### the rest of `position` -/
 
